@@ -185,6 +185,7 @@ class Worker(object):
         self.spec = spec
         self.attempts = {}
         self.requests = []     # (step, correlation_id, payload text, time)
+        self.held = []         # replies a slow worker has not sent yet
 
     def outcome(self, payload_text):
         try:
@@ -362,6 +363,8 @@ class World(object):
             q = b.queues.get(fname)
             if q and q.messages:
                 evs.append((q.messages[0].enq_step, 4, ("worker", fname)))
+            if self.workers[fname].held:
+                evs.append((self.workers[fname].held[0][4], 4, ("wreply", fname)))
         busy = bool(evs)
         if self.api_pos < len(self.script):
             call = self.script[self.api_pos]
@@ -437,10 +440,13 @@ class World(object):
                 t.fired = True
                 conn.timers.remove(t)
                 b.log("timer_fired", timer=t.seq, kind=simcore.timer_kind(t.callback), connection=conn.name,
-                      deadline=t.deadline, site=None)
+                      deadline=t.deadline, site=None, callback=t.callback, now=self.clock.now, delay=t.delay)
                 t.callback()
             elif kind == "worker":
                 self._worker_step(label[1])
+            elif kind == "wreply":
+                rt, cid, text, out, _ = self.workers[label[1]].held.pop(0)
+                self._worker_reply(rt, cid, text, out)
             elif kind == "api":
                 call = self.script[self.api_pos]
                 self.api_pos += 1
@@ -565,6 +571,13 @@ class World(object):
         kind = out[0]
         if kind == "none":
             return
+        if kind == "delay":
+            w.held.append((m.props.reply_to, m.props.correlation_id, text, out[1], self.step_no))
+            return
+        self._worker_reply(m.props.reply_to, m.props.correlation_id, text, out)
+
+    def _worker_reply(self, reply_to, correlation_id, text, out):
+        kind = out[0]
         if kind == "ok":
             body = json.dumps(out[1])
         elif kind == "echo":
@@ -577,8 +590,8 @@ class World(object):
             body = '"' + "x" * (out[1] - 2) + '"'
         else:
             raise ValueError(out)
-        self.env_ch.basic_publish("", m.props.reply_to, body,
-                                  BasicProperties(correlation_id=m.props.correlation_id, content_type="application/json"))
+        self.env_ch.basic_publish("", reply_to, body,
+                                  BasicProperties(correlation_id=correlation_id, content_type="application/json"))
 
     def start_event(self, machine, input, name=None, context_extra=None, definition=None):
         ctx = {"StateMachine": {"Id": sm_arn(machine)}}
